@@ -129,7 +129,8 @@ def accepted(op, i):
 
 def expected_frames(op, kind, i, session, ts):
     idb, keyb = dec(i["dev_id"]), dec(i["dev_key"])
-    login = spec.login1_frame(ts, keyb) if kind == 1 else spec.login2_frame(ts, idb)
+    # the login packet follows the operation's device family: stop() (implemented on the common base class) logs in the Runner way
+    login = spec.login1_frame(ts, keyb) if (kind == 1 and op != "stop") else spec.login2_frame(ts, idb)
     if op == "control_device":
         f = spec.control_frame(session, ts, idb, dec(i["command"]) == Command.ON, dec(i["minutes"]))
     elif op == "set_auto_shutdown":
